@@ -441,6 +441,115 @@ def hints_stripped(prog: Program, rep: Report, rule: str):
     rep.check(not keeps, rule, gh.qualname, gh.loc, "member hints are produced without their Annotated[...] wrappers", "member hints keep their Annotated[...] wrappers (include_extras), and nothing in the library looks through one: `limit: Annotated[ClassVar[int], 'doc']` is no longer recognised as a class variable (iteritems yields it as a field), and a member `Annotated[int, ...]` is no longer routed as an int", detail="hints-stripped")
 
 
+def shared_reference_memo(prog: Program, rep: Report, rule: str):
+    """`typing` interns the aliases it builds: every module that writes `Optional["Node"]` / `List["Node"]` holds the *same*
+    ForwardRef('Node') object (module-less), and typing stores what it evaluated on that object.  Results must not depend on
+    which module was inspected first: (a) refs.evaluate trusts the memo of a reference only when the reference names its
+    module (those are made by refs.forwardref, privately); (b) typing.get_type_hints of a *function* is given a namespace of
+    its own (`localns`), because with the default `localns is globalns` typing answers from the shared memo."""
+    ev = prog.functions.get("typelib.py.refs.evaluate")
+    if ev is None:
+        rep.undecided(rule, "typelib.py.refs.evaluate", "", "anchor not found", detail="memo-of-shared-reference")
+    else:
+        ref = ("param", ev.params[0])
+        bad = n = 0
+        for p, r in P.returns(P.paths_of(prog, ev)):
+            if r == ("attr", ref, "__forward_value__"):
+                n += 1
+                atoms = T.derive_atoms(p.guards())
+                named = any((not val) and a == ("cmp", "is", ("attr", ref, "__forward_module__"), ("const", None)) for a, val in atoms) or any(val and a == ("attr", ref, "__forward_module__") for a, val in atoms)
+                if not named:
+                    bad += 1
+        if n:
+            rep.check(not bad, rule, ev.qualname, ev.loc, f"the remembered value of a reference is trusted only for references that name their module ({n} return(s))", "refs.evaluate returns ref.__forward_value__ for any evaluated reference: a module-less ForwardRef('Node') inside typing.List['Node'] is one object shared by every module that writes that text, so after module a's Node was built, unmarshal(List['Node'], …) issued from module b builds a.Node instances (alone it builds b.Node)", detail="memo-of-shared-reference")
+        else:
+            rep.held(rule, ev.qualname, ev.loc, "refs.evaluate never answers from the reference's own memo", detail="memo-of-shared-reference", nontrivial=False)
+    hs = prog.functions.get(f"{C.INSP}._hints_from_signature")
+    if hs is None:
+        rep.undecided(rule, f"{C.INSP}._hints_from_signature", "", "anchor not found", detail="function-hints-namespace")
+        return
+    obj = ("param", hs.params[0])
+    calls = []
+    for p in P.paths_of(prog, hs):
+        for tm in p.all_terms():
+            for x in T.walk(tm):
+                if T.is_call_to(x, "typing.get_type_hints") and x[2] and x[2][0] != obj:
+                    calls.append(x)
+    if not calls:
+        rep.held(rule, hs.qualname, hs.loc, "no function's hints are evaluated through typing.get_type_hints", detail="function-hints-namespace", nontrivial=False)
+        return
+    default_ns = [c for c in calls if (dict(c[3]).get("localns") or (c[2][2] if len(c[2]) > 2 else ("const", None))) == ("const", None)]
+    rep.check(not default_ns, rule, hs.qualname, hs.loc, "hints of the function carrying a signature are evaluated in a namespace of their own (localns given)", "typing.get_type_hints(<function>) is called with the default namespaces: for a function typing uses localns = globalns, and under that condition it answers from the memo on the shared ForwardRef inside Optional['Node'] -- two plain classes Node(…, next: Optional['Node']) in two modules: whichever is inspected first defines 'Node' for the other (unmarshal(b.Node, …) nests an a.Node)", detail="function-hints-namespace")
+
+
+def class_name_not_stripped(prog: Program, rep: Report, rule: str):
+    """The qualified name of a class never contains its module: `shape.Part` in a module `shape` is the class `Part` nested in
+    the class `shape`.  The removal of a module qualifier is for reference *text*: (a) refs.forwardref leaves the name of a
+    class it is given untouched (no substitution on the non-str path); (b) the by-name cut of the graph hands the class itself
+    to refs.forwardref, not its printed name (which would be treated as text)."""
+    from . import c09
+
+    fr = prog.function("typelib.py.refs.forwardref")
+    ref = ("param", fr.params[0])
+    edits = lambda y: (y[0] == "call" and ((T.refname(y[1]) or "").startswith("re.") or (y[1][0] == "attr" and y[1][2] in ("replace", "removeprefix", "split", "partition", "rpartition", "lstrip", "strip"))))  # noqa: E731
+    n, bad = 0, []
+    for p, r in P.returns(P.paths_of(prog, fr)):
+        if not (r[0] == "call" and T.refname(r[1]) in ("typing.ForwardRef", "typelib.py.refs.ForwardRef") and r[2]):
+            continue
+        atoms = T.derive_atoms(p.guards())
+        if any((a, not val) in atoms for a, val in atoms):
+            continue  # contradictory guards: not a path of the program
+        is_text = [val for a, val in atoms if T.is_call_to(a, "builtins.isinstance") and a[2][:1] == (ref,) and T.contains(a[2][1], lambda z: z == ("ref", "builtins.str"))]
+        if not is_text or is_text[0]:
+            continue  # the reference was given as text (or not decided): R11.7 judges that path
+        n += 1
+        uses_module = lambda y: T.contains(y, lambda z: T.is_call_to(z, "re.escape") or z == ("param", "module") or (z[0] == "call" and (T.refname(z[1]) or "").endswith("_resolve_module_name")))  # noqa: E731
+        if T.contains(r[2][0], lambda y: edits(y) and uses_module(y)):
+            bad.append(T.show(r[2][0])[:70])
+    if n:
+        rep.check(not bad, rule, fr.qualname, fr.loc, f"the name of a class given as an object is used as it is ({n} path(s))", f"the module qualifier is also 'removed' from the qualified name of a class ({bad[:1]}): in a module `shape` that defines a class `shape` with a nested recursive class `shape.Part`, the revisited member is deferred as ForwardRef('Part', module='shape') -- NameError, or silently an unrelated top-level class Part", detail="class-name-not-stripped")
+    else:
+        rep.undecided(rule, fr.qualname, fr.loc, "no path on which the reference is known not to be text", detail="class-name-not-stripped")
+    f, ps = c09.graph_paths(prog)
+    texty = []
+    m = 0
+    for p in ps:
+        child = c09.child_of(p)
+        for c in p.calls():
+            if T.is_call_to(c, "typelib.py.refs.forwardref") and "module" in dict(c[3]) and c[2]:
+                m += 1
+                first = c[2][0]
+                if T.contains(first, lambda y: y[0] == "call" and (T.refname(y[1]) or "").rsplit(".", 1)[-1] in ("qualname", "name", "repr", "str") or (y[0] == "attr" and y[2] in ("__qualname__", "__name__"))):
+                    texty.append(T.show(first)[:60])
+    if m:
+        rep.check(not texty, rule, f.qualname, f.loc, "the cut hands the class itself to refs.forwardref", f"the by-name cut hands the *printed* qualified name of the class to refs.forwardref ({sorted(set(texty))[:1]}), where it is reference text from which a leading `<module>.` is removed: a class nested in a class that is named like its module loses the head of its name", detail="cut-passes-class")
+
+
+def module_binds_name(prog: Program, rep: Report, rule: str):
+    """The module an object *reports* (`__module__`) is where it was made, not necessarily a module that binds the looked-up
+    name to it: `Tree = Union[List["Tree"], int]` reports `typing`, `from decimal import Decimal as Dec` reports `decimal`.
+    Where the resolver answers with the reported module of the object it found for the name, the path has confirmed that this
+    module binds the name to that very object."""
+    f = prog.functions.get("typelib.py.refs._resolve_module_name")
+    if f is None:
+        rep.undecided(rule, "typelib.py.refs._resolve_module_name", "", "anchor not found", detail="module-binds-name")
+        return
+    ref = ("param", f.params[0])
+    n, bad = 0, 0
+    reported = lambda r: T.contains(r, lambda y: (T.is_call_to(y, "builtins.getattr") and len(y[2]) >= 2 and y[2][1] == ("const", "__module__") and T.contains(y[2][0], lambda z: T.is_call_to(z, "typelib.py.frames.extract"))) or (y[0] == "attr" and y[2] == "__module__" and T.contains(y[1], lambda z: T.is_call_to(z, "typelib.py.frames.extract"))))  # noqa: E731
+    for p, r in P.returns(P.paths_of(prog, f)):
+        if not reported(r):
+            continue
+        n += 1
+        confirmed = any(pol and g[0] == "cmp" and g[1] == "is" and any(T.is_call_to(side, "typelib.py.frames.extract") for side in g[2:4]) and any(T.is_call_to(side, "builtins.getattr") and side[2][1:2] == (ref,) for side in g[2:4]) for g, pol in T.derive_atoms(p.guards()))
+        if not confirmed:
+            bad += 1
+    if not n:
+        rep.held(rule, f.qualname, f.loc, "the resolver never answers with the module an object reports", detail="module-binds-name", nontrivial=False)
+        return
+    rep.check(not bad, rule, f.qualname, f.loc, f"the module an object reports is used only after checking that it binds the name to that object ({n} return(s))", "the resolver answers with obj.__module__ of whatever object the name is bound to on the stack: for the classic recursive value alias `Tree = Union[List['Tree'], int]` that is 'typing', for `from decimal import Decimal as Dec` it is 'decimal' -- the name is then evaluated in a module that does not bind it: NameError when the routine is built, even in the alias's own module", detail="module-binds-name")
+
+
 def hints_module_owner(prog: Program, rep: Report, rule: str):
     """A string annotation found in a signature is looked up in the module of the object that *owns* the signature.  For an
     alias (tuple['UserId', int], whose made-up signature carries its arguments) `__module__` is the module of the origin
@@ -573,6 +682,9 @@ def run(prog: Program, rep: Report, tier: str):
     r11_8(prog, rep)
     r11_6(prog, rep)
     c09.leaf_test_object(prog, rep, "R11.6")
+    shared_reference_memo(prog, rep, "R11.8")
+    class_name_not_stripped(prog, rep, "R11.7")
+    module_binds_name(prog, rep, "R11.7")
     sub = Report("C11", tier)
     sub.rule("R09.4", "", 0)
     c09.r09_4(prog, sub)
